@@ -1,4 +1,5 @@
 import LoguruModel.FileSink.Model
+import LoguruModel.FileSink.RenamePath
 import LoguruModel.Driver
 open FileSink Py
 
@@ -134,6 +135,14 @@ def step (line : String) : String :=
     | some cfg, some fs, some nid, some faults, some ops =>
       showRun cfg ops { fs := fs, faults := faults, nextId := nid }
     | _, _, _, _, _ => "bad-op"
+  | "gen" :: root :: date :: ext :: taken =>
+    -- string-level `generate_rename_path`: root, date text, ext, then the existing paths
+    match decTok root, decTok date, decTok ext, taken.mapM decTok with
+    | some root, some date, some ext, some taken =>
+      match generateRenamePath taken root date ext with
+      | some r => "ok " ++ encTok r
+      | none => "none"
+    | _, _, _, _ => "bad-op"
   | ["fmt", s] =>
     match decTok s with
     | some s =>
